@@ -299,12 +299,29 @@ def r8_4(repo: Repo) -> RuleResult:
     )
 
 
-RULES = [r8_1, r8_2, r8_3, r8_4]
+def r8_5(repo: Repo) -> RuleResult:
+    """Every input format must reach the same kernels with the same configuration.  The estimators' own fit / transform
+    bodies dispatch on the format (sparse matrix / lists / generator) and on whether reference vectors are supplied;
+    a local that one arm of that dispatch forgets to assign makes that combination raise UnboundLocalError while the
+    same data in another format is embedded."""
+    from .common import definite_assignment_over, exported_estimators
+
+    rr = RuleResult("R8.5", "in fit / transform of the transport estimators every local read is assigned on every path of the format / reference dispatch", floor=4)
+    classes = [c for c in exported_estimators(repo) if c.module.path == LOT]
+    return definite_assignment_over(
+        repo, rr, classes, ("fit", "transform", "fit_transform"),
+        "that combination of input format and supplied reference raises UnboundLocalError where the same data in another format is embedded",
+        only_file=LOT)
+
+
+RULES = [r8_1, r8_2, r8_3, r8_4, r8_5]
 CLAIM = (
     "R8.1 in both LOT kernels every path to the solver divides the row distribution by its own sum under `row_sum > 0` "
     "(must-pass-through + edge dominance); R8.2 every block / chunk loop of linear_optimal_transport.py has bounds start = i*B, "
     "end = min(n, start + B) and a divisor B guarded by max(>=1, ...) (or a configuration value), traced through parameters to "
-    "call sites; R8.3 sparse and dense kernels have equal fact sets after their prologues; R8.4 spherical_vectors agreement."
+    "call sites; R8.3 sparse and dense kernels have equal fact sets after their prologues; R8.4 spherical_vectors agreement; "
+    "R8.5 definite assignment (CFG dataflow) in fit / transform of the transport estimators and the non-compiled functions they "
+    "reach: no arm of the input-format / reference-vector dispatch leaves a local that is read later unassigned."
 )
 NOT_DECIDED = (
     "invariance under permutation, zero padding and splitting of support points, equality of equal distributions, and the isometry "
